@@ -1,0 +1,85 @@
+//go:build verif
+
+// Contracts for the verification machinery under /verif (contract-based deductive
+// verification). This file is comment-only, is excluded from every normal build by the
+// "verif" build tag, and declares nothing. See /verif/DESIGN.md §4.
+
+package resource
+
+// C19: identity comparison is pointer identity or equality of (type, id, version); nil equals
+// only nil. Reflexivity, symmetry and transitivity follow from this postcondition
+// (lemmas identity_eq_* in /verif/contracts/lemmas/identity.spec).
+//@ func (i *Identity) Equal(other) (res)
+//@   ensures i == other ==> res
+//@   ensures i != other && (i == nil || other == nil) ==> !res
+//@   ensures i != nil && other != nil ==> res == (i.typeName == other.typeName && i.id == other.id && i.version == other.version)
+//@   ensures res == identEq(i, string(i.typeName), i.id, i.version, other, string(other.typeName), other.id, other.version)
+//@   assigns nothing
+
+// C19: an identity is made exactly for a valid resource type name and carries the three
+// components unchanged
+//@ func NewIdentity(resourceType, id, versionID) (res, err)
+//@   ensures (err == nil) == (res != nil)
+//@   ensures (err == nil) == isResourceTypeS(resourceType)
+//@   ensures err == nil ==> string(res.typeName) == resourceType && res.id == id && res.version == versionID
+
+//@ func IsType(name) (res)
+//@   defines res == isResourceTypeS(name)
+//@   assigns nothing
+//@ func NewType(resourceType) (res, err)
+//@   defines (err == nil) == isResourceTypeS(resourceType)
+//@   ensures err == nil ==> string(res) == resourceType
+//@   ensures err != nil ==> is(err, ErrBadType)
+
+//@ func (i *Identity) Type() (res)
+//@   requires i != nil
+//@   ensures res == i.typeName
+//@   assigns nothing
+//@ func (i *Identity) ID() (res)
+//@   requires i != nil
+//@   ensures res == i.id
+//@   assigns nothing
+//@ func (i *Identity) VersionID() (res, ok)
+//@   requires i != nil
+//@   ensures res == i.version && ok == (i.version != "")
+//@   assigns nothing
+
+// C19: the formatted forms, as the engine names fmt.Sprintf of a constant format
+//@ func (i *Identity) RelativeURI() (res)
+//@   requires i != nil
+//@   ensures res != nil && res.Value == sprintf_SS("%v/%v", string(i.typeName), i.id)
+//@ func (i *Identity) RelativeVersionedURI() (res, ok)
+//@   requires i != nil
+//@   ensures ok == (i.version != "") && ok == (res != nil)
+//@   ensures ok ==> res.Value == sprintf_SSS("%v/%v/_history/%v", string(i.typeName), i.id, i.version)
+//@ func (i *Identity) RelativeURIString() (res)
+//@   requires i != nil
+//@   ensures res == sprintf_SS("%v/%v", string(i.typeName), i.id)
+//@ func (i *Identity) RelativeVersionedURIString() (res, ok)
+//@   requires i != nil
+//@   ensures ok == (i.version != "")
+//@   ensures ok ==> res == sprintf_SSS("%v/%v/_history/%v", string(i.typeName), i.id, i.version)
+//@   ensures !ok ==> res == ""
+//@ func (i *Identity) PreferRelativeVersionedURIString() (res)
+//@   requires i != nil
+//@   ensures i.version != "" ==> res == sprintf_SSS("%v/%v/_history/%v", string(i.typeName), i.id, i.version)
+//@   ensures i.version == "" ==> res == sprintf_SS("%v/%v", string(i.typeName), i.id)
+//@ func (i *Identity) String() (res)
+//@   requires i != nil
+//@   ensures i.version != "" ==> res == sprintf_SSS("%v/%v/_history/%v", string(i.typeName), i.id, i.version)
+//@   ensures i.version == "" ==> res == sprintf_SS("%v/%v", string(i.typeName), i.id)
+//@   assigns nothing
+
+// C19: a canonical identity needs a url; it carries the three parts unchanged and prints them
+// back as url[|version][#fragment]
+//@ func NewCanonicalIdentity(url, version, fragment) (res, err)
+//@   ensures (err == nil) == (url != "") && (err == nil) == (res != nil)
+//@   ensures err != nil ==> is(err, ErrMissingCanonicalURL)
+//@   ensures err == nil ==> res.Url == url && res.Version == version && res.Fragment == fragment
+//@ func (c *CanonicalIdentity) String() (res)
+//@   requires c != nil
+//@   ensures c.Version == "" && c.Fragment == "" ==> res == c.Url
+//@   ensures c.Version != "" && c.Fragment == "" ==> res == sprintf_SS("%s|%s", c.Url, c.Version)
+//@   ensures c.Version == "" && c.Fragment != "" ==> res == sprintf_SS("%s#%s", c.Url, c.Fragment)
+//@   ensures c.Version != "" && c.Fragment != "" ==> res == sprintf_SS("%s#%s", sprintf_SS("%s|%s", c.Url, c.Version), c.Fragment)
+//@   assigns nothing
